@@ -7,8 +7,9 @@ attempts / run ends / configuration edits of the REAL lifecycle services against
 plus the C11 monitor `noLeakAfterFailedBuild` (Spec/Rebuild.lean).
 
   <v1|v2> P=<procs> C=<conn>;… | <step>,<step>,… => <observed>
-  step      b | t | mk<id> | rmp<id> | rmc<id> | adds<id> | addd<id>
-  observed  per b: ok{ids} | err:<class>{ids}; per t: t{ids}   ({ids} = reserved processor instances afterwards)
+  step      b | t | s | mk<id> | rmp<id> | rmc<id> | adds<id> | addd<id> | fp<id> | fc<id> | fx
+  observed  per b: ok{ids} | err:<class>{ids}; per s: s:ok{ids} | s:ran{ids} | s:err:<class>{ids}; per t: t{ids}
+            ({ids} = reserved processor instances afterwards)
 
   result    ok                         the model produces exactly the observed tokens and the monitor holds
             reject@<k>:model=… observed=…   the k-th token differs (model ≠ code)
@@ -29,11 +30,19 @@ def showOutcome : Outcome → String
 def showObs : Obs → Option String
   | .built o h => some (showOutcome o ++ showIds h)
   | .torn h => some ("t" ++ showIds h)
+  | .started o h =>
+    some ("s:" ++ (match o with
+      | .ok => "ok" | .ran => "ran" | .buildErr e => TreeBuildD.showBuildErr e
+      | .openFailed => "err:open" | .plRunning => "err:plrunning") ++ showIds h)
   | .none => none
 
 def parseStep (s : String) : Option Step :=
   if s = "b" then some .build
   else if s = "t" then some .teardown
+  else if s = "s" then some .start
+  else if s = "fx" then some .failclear
+  else if s.startsWith "fp" then (TreeBuildD.parseId (s.drop 2).toString).map .failp
+  else if s.startsWith "fc" then (TreeBuildD.parseId (s.drop 2).toString).map .failc
   else if s.startsWith "mk" then (TreeBuildD.parseId (s.drop 2).toString).map .mk
   else if s.startsWith "rmp" then (TreeBuildD.parseId (s.drop 3).toString).map .rmp
   else if s.startsWith "rmc" then (TreeBuildD.parseId (s.drop 3).toString).map .rmc
@@ -96,6 +105,8 @@ def rebuildLine (line : String) : String :=
         | .ok => "ok"
         | .failedBuildKeepsReservations k l =>
           s!"fail: C11 {showEng c.eng} failed build keeps reservations: step {k} returned an error and holds {showIds l}"
+        | .failedOpenKeepsReservations k l =>
+          s!"fail: C11 {showEng c.eng} failed open keeps reservations: step {k} returned an error and holds {showIds l}"
         | .heldAfterAllRunsEnded k l =>
           s!"fail: C11 {showEng c.eng} reservations held after every run ended: step {k} {showIds l}"
         | .resultDependsOnHistory k =>
